@@ -26,7 +26,7 @@ THEOREMS = ["AurelVerif.C04." + t for t in (
     "populate_table", "populate_blocks", "populate_sym",
     "st_Riemann_down4_betaup3_matter_spec", "st_Riemann_down4_dflt_matter_spec",
     "st_Riemann_down4_betaup3_vacuum_spec", "st_Riemann_down4_dflt_vacuum_spec",
-    "s_covd_dd_spec", "s_to_st_spec", "KK4_is_KK3", "KK4_is_KK3_noshift", "st_Riemann_down4_sym",
+    "s_covd_dd_spec", "s_to_st_spec", "KK4_is_KK3", "KK4_is_KK3_noshift", "gup4_3p1", "st_Riemann_down4_sym",
     "st_Riemann_uddd4_spec", "st_Riemann_uudd4_spec", "Kretschmann_spec",
     "st_Ricci_down4_dflt_spec", "st_Ricci_down4_Tdown4_spec", "st_Ricci_down3_dflt_spec", "st_Ricci_down3_cached_spec",
     "st_RicciS_spec", "Einsteindown4_spec", "st_Ricci_down3_coherent",
@@ -39,7 +39,7 @@ NEEDED = ["st_Gamma_udd4", "st_Riemann_down4", "st_Riemann_uddd4", "st_Riemann_u
 LEAN_FILES = ["AurelVerif/Props/C04.lean", "AurelVerif/Spec/Curvature.lean", "AurelVerif/Lemmas/C04Populate.lean",
               "AurelVerif/Lemmas/C04Contract.lean", "AurelVerif/Lemmas/C04Blocks.lean",
               "AurelVerif/Lemmas/C04RiemannMatter.lean", "AurelVerif/Lemmas/C04RiemannVacuum.lean",
-              "AurelVerif/Lemmas/C04Gamma.lean", "AurelVerif/Lemmas/C04GammaCode.lean",
+              "AurelVerif/Lemmas/C04Gamma.lean", "AurelVerif/Lemmas/C04GammaCode.lean", "AurelVerif/Lemmas/C04Gup.lean",
               "AurelVerif/Gen/CoreCurv.lean", "AurelVerif/Gen/CoreBig_st_Riemann_down4.lean",
               "AurelVerif/Gen/CoreBig_st_Riemann_uddd4.lean", "AurelVerif/Gen/CoreBig_st_Riemann_uudd4.lean",
               "AurelVerif/Gen/CoreBig_Kretschmann.lean", "AurelVerif/Gen/CoreBig_maths_populate_4Riemann.lean"]
